@@ -22,7 +22,36 @@ PROPS["C19"] = dict(
 )
 
 
+PROPS["C18"] = dict(
+    lean_targets=["Chihaya.Props.C18"],
+    props_files=["Chihaya/Props/C18.lean"],
+    gen=["random"],
+    streams=[dict(name="C18", quick=20000, thorough=600000)],
+    rule="cases: real varinterval hook on (infohash, peer id, config): generator states constructed by inverting xorshift so the "
+         "first/second draw is 0, 2^63-1, 2^63, 2^64-1, ..., first draws next to the probability threshold, random pairs, "
+         "config acceptance grid; non-trivial = modified responses and threshold/edge cases (tag != unmodified), distinct op lines",
+    trusted=["Gen/Random.lean is produced by harness/tr (go/ast translator, ~350 lines) from middleware/pkg/random on every run",
+             "modelled not verified: float32 division/comparison (exact for 0<=v<2^24, argued in Model/VarInterval.lean), time.Duration arithmetic without overflow"],
+    assumptions=["max_increase_delta < 2^63 and interval + delta seconds does not overflow int64 nanoseconds"],
+)
+
+
 def run_gen(name, repo, lean, work, goenv):
+    """regenerate lean/Chihaya/Gen/<Name>.lean from the current source"""
+    tr = os.path.join(work, "tr")
+    p = subprocess.run(["go", "build", "-o", tr, "./tr"], cwd=os.path.join(os.path.dirname(lean), "harness"), env=goenv,
+                       stdout=subprocess.PIPE, stderr=subprocess.STDOUT, text=True)
+    if p.returncode != 0:
+        return p.returncode, p.stdout
+    out = os.path.join(lean, "Chihaya", "Gen", name.capitalize() + ".lean")
+    tmp = os.path.join(work, name + ".lean")
+    p = subprocess.run([tr, name, repo, tmp], stdout=subprocess.PIPE, stderr=subprocess.STDOUT, text=True)
+    if p.returncode != 0:
+        return p.returncode, p.stdout
+    new = open(tmp).read()
+    old = open(out).read() if os.path.exists(out) else None
+    if new != old:
+        open(out, "w").write(new)
     return 0, ""
 
 
@@ -44,13 +73,56 @@ def context_of(stream, ops, i):
     return list(reversed(ctx))
 
 
-STATELESS = {"benc"}
+STATELESS = {"benc", "vi"}
 
 
 def oracle(pid, stream, op, impl, model):
     """True iff this diverging line is a concrete input on which the property fails for the
     implementation (as opposed to a mere difference from the model)."""
     return True
+
+
+def args_of(op):
+    d = {}
+    for f in op.split(" ")[1:]:
+        k, _, v = f.partition("=")
+        d[k] = v
+    return d
+
+
+def judge(pid, stream, op, impl):
+    """Property oracle on the implementation's observation alone (independent of the model):
+    returns a reason string when this line is a concrete input on which the property fails."""
+    name = op.split(" ")[0]
+    f = JUDGES.get(name)
+    if f is None:
+        return None
+    try:
+        return f(args_of(op), impl)
+    except Exception as e:  # a malformed observation is itself a failure of the tie
+        return f"unjudgeable observation: {e}"
+
+
+def judge_vi_handle(a, impl):
+    if impl in ("refused",):
+        return None
+    if not impl.startswith("iv="):
+        return "hook did not produce a response: " + impl
+    o = args_of("x " + impl)
+    iv, miv, iv2, miv2, delta = int(a["iv"]), int(a["miv"]), int(o["iv"]), int(o["miv"]), int(a["delta"])
+    S = 10**9
+    if (iv2 - iv) % S != 0:
+        return "interval changed by a non-integral number of seconds"
+    d = (iv2 - iv) // S
+    if not (d == 0 or 1 <= d <= delta):
+        return f"interval changed by d={d}, outside {{0}} ∪ [1,{delta}]"
+    want = miv + d * S if a["mm"] == "1" else miv
+    if miv2 != want:
+        return f"min interval {miv2}, expected {want}"
+    return None
+
+
+JUDGES = {"vi.handle": judge_vi_handle}
 
 
 def matches(finding, failing):
